@@ -70,7 +70,7 @@ def main() -> None:
                  "2 machinery failure.",
     }
     (ROOT / "MANIFEST.json").write_text(json.dumps(m, indent=1) + "\n")
-    subprocess.run(["/venv/bin/python", "-c",
+    subprocess.run(["python3-vt", "-c",
                     "import json,jsonschema;jsonschema.validate(json.load(open('/verif/MANIFEST.json')),"
                     "json.load(open('/root/.vp/MANIFEST.schema.json')));print('manifest ok')"], check=False)
 
